@@ -25,6 +25,60 @@ def F(rec, field):
 HH = F("stream", "hh")
 
 
+def check_stream_cmp(ctx, rule):
+    """stream_cmp is the heap key: positive / zero / negative exactly when a's last clock is lower / equal / higher,
+    on small clocks and symbolically on every pair of 64-bit clocks."""
+    prog = ctx.prog
+    eff = effects.Effects(prog)
+    sc = prog.fn("stream_cmp", PL)
+    ex = absint.Explorer(prog, effects=eff, inline=lambda n, d: n == "stream_lastclock")
+    for (ca, cb) in ((1, 2), (2, 1), (2, 2), (-5, 7)):
+        outs = ex.run(sc, [PTR("SA", HH), PTR("SB", HH)], {("SA", F("stream", "lastclock")): INT(ca),
+                                                           ("SB", F("stream", "lastclock")): INT(cb)})
+        rets = {o.ret for o in outs if o.kind == "ret"}
+        want = 1 if ca < cb else (-1 if ca > cb else 0)
+        good = len(rets) == 1 and list(rets)[0][0] == "int" and \
+            ((want > 0 and list(rets)[0][1] > 0) or (want < 0 and list(rets)[0][1] < 0) or (want == 0 and list(rets)[0][1] == 0))
+        ctx.check(good, rule, "stream_cmp:%d-vs-%d" % (ca, cb), sc.loc(),
+                  "stream_cmp gives %s for last clocks %d and %d; the min-heap needs %s" %
+                  (sorted(rets, key=str), ca, cb, {1: "positive", 0: "zero", -1: "negative"}[want]))
+
+    # for every pair of 64-bit clocks, not only small ones: a difference narrowed to int loses the sign once
+    # two streams are 2^31 ns apart
+    for rel, want in (("<", 1), (">", -1), ("==", 0)):
+        exs = absint.Explorer(prog, effects=eff, inline=lambda n, d: n == "stream_lastclock")
+        A = exs.sym("ca", -2 ** 62, 2 ** 62)
+        B = exs.sym("cb", -2 ** 62, 2 ** 62)
+        cons = exs.cmp_constraints(rel, 0, {"ca": 1, "cb": -1})
+        outs = exs.run(sc, [PTR("SA", HH), PTR("SB", HH)], {("SA", F("stream", "lastclock")): A,
+                                                            ("SB", F("stream", "lastclock")): B}, cons=tuple(cons))
+        good = bool(outs)
+        got = []
+        for o in outs:
+            if o.kind != "ret":
+                continue
+            r = o.ret
+            got.append(r)
+            if r is None or r[0] != "int":
+                l = to_lin(r) if r is not None else None
+                sgn = None
+                if l is not None:
+                    if exs.decide_cmp(o.cons, ">", l[0], dict(l[1])) is True:
+                        sgn = 1
+                    elif exs.decide_cmp(o.cons, "<", l[0], dict(l[1])) is True:
+                        sgn = -1
+                    elif exs.decide_cmp(o.cons, "==", l[0], dict(l[1])) is True:
+                        sgn = 0
+            else:
+                sgn = (r[1] > 0) - (r[1] < 0)
+            if sgn != want:
+                good = False
+        ctx.check(good, rule, "stream_cmp:any-clocks:a-%s-b" % {"<": "lower", ">": "higher", "==": "equal"}[rel], sc.loc(),
+                  "for arbitrary 64-bit last clocks with a %s b stream_cmp returns %s; the min-heap needs a %s result "
+                  "for every such pair" % (rel, sorted(set(map(str, got))), {1: "positive", 0: "zero", -1: "negative"}[want]))
+
+
+
 def run(ctx):
     prog = ctx.prog
     eff = effects.Effects(prog)
@@ -120,52 +174,7 @@ def run(ctx):
               "a successful return of trace_load can be reached without going through the stream sort")
 
     # ---- R3.2 -------------------------------------------------------------------------
-    sc = prog.fn("stream_cmp", PL)
-    ex = absint.Explorer(prog, effects=eff, inline=lambda n, d: n == "stream_lastclock")
-    for (ca, cb) in ((1, 2), (2, 1), (2, 2), (-5, 7)):
-        outs = ex.run(sc, [PTR("SA", HH), PTR("SB", HH)], {("SA", F("stream", "lastclock")): INT(ca),
-                                                           ("SB", F("stream", "lastclock")): INT(cb)})
-        rets = {o.ret for o in outs if o.kind == "ret"}
-        want = 1 if ca < cb else (-1 if ca > cb else 0)
-        good = len(rets) == 1 and list(rets)[0][0] == "int" and \
-            ((want > 0 and list(rets)[0][1] > 0) or (want < 0 and list(rets)[0][1] < 0) or (want == 0 and list(rets)[0][1] == 0))
-        ctx.check(good, "R3.2", "stream_cmp:%d-vs-%d" % (ca, cb), sc.loc(),
-                  "stream_cmp gives %s for last clocks %d and %d; the min-heap needs %s" %
-                  (sorted(rets, key=str), ca, cb, {1: "positive", 0: "zero", -1: "negative"}[want]))
-
-    # for every pair of 64-bit clocks, not only small ones: a difference narrowed to int loses the sign once
-    # two streams are 2^31 ns apart
-    for rel, want in (("<", 1), (">", -1), ("==", 0)):
-        exs = absint.Explorer(prog, effects=eff, inline=lambda n, d: n == "stream_lastclock")
-        A = exs.sym("ca", -2 ** 62, 2 ** 62)
-        B = exs.sym("cb", -2 ** 62, 2 ** 62)
-        cons = exs.cmp_constraints(rel, 0, {"ca": 1, "cb": -1})
-        outs = exs.run(sc, [PTR("SA", HH), PTR("SB", HH)], {("SA", F("stream", "lastclock")): A,
-                                                            ("SB", F("stream", "lastclock")): B}, cons=tuple(cons))
-        good = bool(outs)
-        got = []
-        for o in outs:
-            if o.kind != "ret":
-                continue
-            r = o.ret
-            got.append(r)
-            if r is None or r[0] != "int":
-                l = to_lin(r) if r is not None else None
-                sgn = None
-                if l is not None:
-                    if exs.decide_cmp(o.cons, ">", l[0], dict(l[1])) is True:
-                        sgn = 1
-                    elif exs.decide_cmp(o.cons, "<", l[0], dict(l[1])) is True:
-                        sgn = -1
-                    elif exs.decide_cmp(o.cons, "==", l[0], dict(l[1])) is True:
-                        sgn = 0
-            else:
-                sgn = (r[1] > 0) - (r[1] < 0)
-            if sgn != want:
-                good = False
-        ctx.check(good, "R3.2", "stream_cmp:any-clocks:a-%s-b" % {"<": "lower", ">": "higher", "==": "equal"}[rel], sc.loc(),
-                  "for arbitrary 64-bit last clocks with a %s b stream_cmp returns %s; the min-heap needs a %s result "
-                  "for every such pair" % (rel, sorted(set(map(str, got))), {1: "positive", 0: "zero", -1: "negative"}[want]))
+    check_stream_cmp(ctx, "R3.2")
 
     # ---- R3.3 ---------------------------------------------------------------------------
     st = prog.fn("step_stream", PL)
